@@ -58,9 +58,11 @@ def generic_clauses(pod_table, res):
     return out
 
 
-def rule_clauses(name, pod_table, ghost, ts, args, res):
+def rule_clauses(name, pod_table, ghost, ts, args, res, spec_name=None):
     """all clauses of the contract of rule `name` for one (arguments, result) pair"""
     from contracts.rule_specs import SPECS
+    if spec_name is not None:
+        return list(SPECS[spec_name](Env(pod_table, ghost), ts, *(list(args) + [res])))
     out = generic_clauses(pod_table, res)
     out.append(("result-fresh-or-argument", ["C12", "C15"], fresh_or_argument(args, res)))
     if name == "ruleEarlyLatePOD":
